@@ -814,7 +814,10 @@ func parseTags(text string, basePos Position) []ast.Tag {
 
 	var tags []ast.Tag
 	parts := strings.Split(text, ",")
-	searchStart := 0
+	// byte offset in text of the piece at hand: a tag is located inside its own
+	// piece, never by searching the comment for its name (an earlier word may
+	// end in "name:", and searching again for every piece is quadratic)
+	partStart, nextStart := 0, 0
 	// UTF-16 length of text[:measured], advanced tag by tag
 	measured, measuredUnits := 0, 0
 	unitsUpTo := func(offset int) int {
@@ -827,6 +830,7 @@ func parseTags(text string, basePos Position) []ast.Tag {
 	}
 
 	for _, part := range parts {
+		partStart, nextStart = nextStart, nextStart+len(part)+1
 		trimmed := strings.TrimSpace(part)
 		colonIdx := strings.Index(trimmed, ":")
 		if colonIdx == -1 {
@@ -843,15 +847,11 @@ func parseTags(text string, basePos Position) []ast.Tag {
 			value = strings.TrimSpace(trimmed[colonIdx+1:])
 		}
 
-		tagStart := strings.Index(text[searchStart:], name+":")
-		if tagStart == -1 {
-			continue
-		}
-		tagStart += searchStart
-
-		tagEnd := tagStart + len(name) + 1
+		// the name opens the piece (after its leading blanks); the colon follows it
+		tagStart := partStart + len(part) - len(strings.TrimLeftFunc(part, unicode.IsSpace))
+		tagEnd := tagStart + colonIdx + 1
 		if value != "" {
-			valueStart := strings.Index(text[tagEnd:], value)
+			valueStart := strings.Index(text[tagEnd:partStart+len(part)], value)
 			if valueStart != -1 {
 				tagEnd = tagEnd + valueStart + len(value)
 			}
@@ -870,7 +870,6 @@ func parseTags(text string, basePos Position) []ast.Tag {
 			},
 		})
 
-		searchStart = tagEnd
 	}
 
 	return tags
